@@ -154,3 +154,8 @@ def check(ctx):
                               {'channel': T.pretty(ch)[:300]})
         ctx.guard('R4', fsite(f), r4)
     ctx.count('multi_channel_iteration instantiations', len(ks), 2)
+    # the canonical number of the selection must be drawn in the numeric type T with T's precision:
+    # drawn in a wider type and narrowed, it can round to exactly 1 and select index == channels
+    from .common import share
+    share(ctx, 'C10', 'R5/C10.', ['R1.selector', 'R1.template_args'])
+
